@@ -43,6 +43,10 @@ pub assume_specification<'a, T, F: FnMut(&'a T) -> Ordering>[<[T]>::binary_searc
 //@require source=bp seq="const PAGE_SIZE: u32 = 8;"
 //@require source=bp seq="pub(crate) const PAGE_BITS: u32 = ELEM_BITS * PAGE_SIZE;"
 //@require source=bs seq="const PAGE_BITS_LOG_2: u32 = PAGE_BITS.ilog2();"
+pub assume_specification<T>[core::ops::RangeInclusive::<T>::start](r: &core::ops::RangeInclusive<T>) -> (s: &T)
+    ensures *s == r@.start;
+pub assume_specification<T>[core::ops::RangeInclusive::<T>::end](r: &core::ops::RangeInclusive<T>) -> (e: &T)
+    ensures *e == r@.end;
 pub const PAGE_BITS: u32 = 512;
 const PAGE_BITS_LOG_2: u32 = 9;
 
@@ -69,6 +73,10 @@ impl BitPage {
     pub fn contains(&self, val: u32) -> (r: bool) ensures r == self@.contains(val & 511) { unimplemented!() }
     #[verifier::external_body]
     pub fn clear(&mut self) ensures final(self)@ == Set::<u32>::empty() { unimplemented!() }
+    #[verifier::external_body]
+    pub fn insert_range(&mut self, first: u32, last: u32)
+        ensures forall|y: u32| final(self)@.contains(y) == (old(self)@.contains(y) || ((first & 511) <= y <= (last & 511)))
+    { unimplemented!() }
 }
 // members of a page are 0..=511 (type invariant of BitPage; part of U14.1's view)
 pub broadcast axiom fn axiom_page_range(p: BitPage, x: u32)
@@ -257,8 +265,8 @@ impl BitSet {
 
 //@extract source=bs container="impl BitSet" fn=ensure_page_index_for_major ret=r
 //@spec
-        requires old(self).wf(), major_value < 0x80_0000
-        ensures final(self).wf(), r < final(self).pages@.len(),
+        requires map_wf_s(old(self).page_map@, old(self).pages@), major_value < 0x80_0000
+        ensures map_wf_s(final(self).page_map@, final(self).pages@), sum_len(final(self).pages@) == sum_len(old(self).pages@), r < final(self).pages@.len(),
             exists|i: int| 0 <= i < final(self).page_map@.len() && final(self).page_map@[i].major_value == major_value && final(self).page_map@[i].index == r,
             forall|x: u32| final(self).mem(x) == old(self).mem(x),
             final(self).length == old(self).length,
@@ -274,11 +282,11 @@ impl BitSet {
 
 //@extract source=bs container="impl BitSet" fn=ensure_page_for_major_mut ret=r
 //@spec
-        requires old(self).wf(), major_value < 0x80_0000
+        requires map_wf_s(old(self).page_map@, old(self).pages@), major_value < 0x80_0000
         ensures
             map_wf_s(final(self).page_map@, final(self).pages@),
             final(self).length == old(self).length,
-            sum_len(final(self).pages@) + (*r)@.len() == old(self).length + (*final(r))@.len(),
+            sum_len(final(self).pages@) + (*r)@.len() == sum_len(old(self).pages@) + (*final(r))@.len(),
             forall|x: u32| (x >> 9) != major_value ==> final(self).mem(x) == old(self).mem(x),
             forall|x: u32| (x >> 9) == major_value ==> old(self).mem(x) == (*r)@.contains(x & 511),
             forall|x: u32| (x >> 9) == major_value ==> final(self).mem(x) == (*final(r))@.contains(x & 511),
@@ -297,11 +305,11 @@ impl BitSet {
 
 //@extract source=bs container="impl BitSet" fn=ensure_page_for_mut ret=r
 //@spec
-        requires old(self).wf()
+        requires map_wf_s(old(self).page_map@, old(self).pages@)
         ensures
             map_wf_s(final(self).page_map@, final(self).pages@),
             final(self).length == old(self).length,
-            sum_len(final(self).pages@) + (*r)@.len() == old(self).length + (*final(r))@.len(),
+            sum_len(final(self).pages@) + (*r)@.len() == sum_len(old(self).pages@) + (*final(r))@.len(),
             forall|x: u32| (x >> 9) != (value >> 9) ==> final(self).mem(x) == old(self).mem(x),
             forall|x: u32| (x >> 9) == (value >> 9) ==> old(self).mem(x) == (*r)@.contains(x & 511),
             forall|x: u32| (x >> 9) == (value >> 9) ==> final(self).mem(x) == (*final(r))@.contains(x & 511),
@@ -321,7 +329,7 @@ impl BitSet {
 
 //@extract source=bs container="impl BitSet" fn=page_for ret=r
 //@spec
-        requires self.wf()
+        requires map_wf_s(self.page_map@, self.pages@)
         ensures r is Some ==> (forall|x: u32| (x >> 9) == (value >> 9) ==> self.mem(x) == r->Some_0@.contains(x & 511)),
             r is None ==> (forall|x: u32| (x >> 9) == (value >> 9) ==> !self.mem(x)),
 //@at before "self.pages.get(pages_index)"
@@ -362,13 +370,13 @@ impl BitSet {
 
 //@extract source=bs container="impl BitSet" fn=page_for_major_mut ret=r
 //@spec
-        requires old(self).wf()
+        requires map_wf_s(old(self).page_map@, old(self).pages@)
         ensures
             r is None ==> *final(self) == *old(self) && (forall|x: u32| (x >> 9) == major_value ==> !old(self).mem(x)),
             r is Some ==> {
                 &&& map_wf_s(final(self).page_map@, final(self).pages@)
                 &&& final(self).length == old(self).length
-                &&& sum_len(final(self).pages@) + (*r->Some_0)@.len() == old(self).length + (*final(r->Some_0))@.len()
+                &&& sum_len(final(self).pages@) + (*r->Some_0)@.len() == sum_len(old(self).pages@) + (*final(r->Some_0))@.len()
                 &&& forall|x: u32| (x >> 9) != major_value ==> final(self).mem(x) == old(self).mem(x)
                 &&& forall|x: u32| (x >> 9) == major_value ==> old(self).mem(x) == (*r->Some_0)@.contains(x & 511)
                 &&& forall|x: u32| (x >> 9) == major_value ==> final(self).mem(x) == (*final(r->Some_0))@.contains(x & 511)
@@ -388,13 +396,13 @@ impl BitSet {
 
 //@extract source=bs container="impl BitSet" fn=page_for_mut ret=r
 //@spec
-        requires old(self).wf()
+        requires map_wf_s(old(self).page_map@, old(self).pages@)
         ensures
             r is None ==> *final(self) == *old(self) && (forall|x: u32| (x >> 9) == (value >> 9) ==> !old(self).mem(x)),
             r is Some ==> {
                 &&& map_wf_s(final(self).page_map@, final(self).pages@)
                 &&& final(self).length == old(self).length
-                &&& sum_len(final(self).pages@) + (*r->Some_0)@.len() == old(self).length + (*final(r->Some_0))@.len()
+                &&& sum_len(final(self).pages@) + (*r->Some_0)@.len() == sum_len(old(self).pages@) + (*final(r->Some_0))@.len()
                 &&& forall|x: u32| (x >> 9) != (value >> 9) ==> final(self).mem(x) == old(self).mem(x)
                 &&& forall|x: u32| (x >> 9) == (value >> 9) ==> old(self).mem(x) == (*r->Some_0)@.contains(x & 511)
                 &&& forall|x: u32| (x >> 9) == (value >> 9) ==> final(self).mem(x) == (*final(r->Some_0))@.contains(x & 511)
@@ -410,8 +418,76 @@ impl BitSet {
                 assert forall|x: u32| (x == val) == ((x >> 9) == (val >> 9) && (x & 511) == (val & 511)) by { lemma_split(x, val); }
             }
 //@end
+
+//@extract source=bs container="impl BitSet" fn=insert_range
+//@rewrite "RangeInclusive<u32>" => "core::ops::RangeInclusive<u32>"
+//@spec
+        requires old(self).wf()
+        ensures final(self).wf(), forall|x: u32| final(self).mem(x) == (old(self).mem(x) || (range@.start <= x <= range@.end))
+//@at after "let mut total_added = 0;"
+        proof {
+            assert((start >> 9) <= (end >> 9)) by(bit_vector) requires start <= end;
+            assert forall|x: u32| start <= x implies (start >> 9) <= (x >> 9) by { assert((start >> 9) <= (x >> 9)) by(bit_vector) requires start <= x; }
+        }
+//@at after "for major in"
+it:
+//@at loop "for major in"
+            invariant
+                start <= end, major_start == start >> 9, major_end == end >> 9, major_start <= major_end,
+                map_wf_s(self.page_map@, self.pages@), self.length == old(self).length,
+                sum_len(self.pages@) == old(self).length + total_added, sum_len(old(self).pages@) == old(self).length, total_added <= 512 * it.index@,
+                forall|x: u32| self.mem(x) == (old(self).mem(x) || (start <= x <= end && (x >> 9) < major_start + it.index@)),
+//@at loop-body "for major in"
+            proof {
+                assert(major < 0x80_0000) by(bit_vector) requires major <= end >> 9;
+                assert((major << 9) <= 0xffff_fe00u32) by(bit_vector) requires major < 0x80_0000u32;
+            }
+//@at after "let pre_len = page.len();"
+            let ghost pre = page@;
+//@at after "page.insert_range(page_start, page_end);"
+            proof {
+                assert(pre.subset_of(page@));
+                vstd::set_lib::lemma_len_subset(pre, page@);
+                lemma_page_len(*page);
+            }
+//@at loop-end "for major in"
+            proof {
+                assert forall|x: u32| self.mem(x) == (old(self).mem(x) || (start <= x <= end && (x >> 9) < major_start + it.index@ + 1)) by {
+                    if (x >> 9) == major { lemma_range_bits(start, end, major, x); }
+                }
+            }
+//@at loop-after "for major in"
+        proof {
+            lemma_sum_bound(self.pages@);
+            lemma_len_bound(self.page_map@, self.pages@);
+            assert forall|x: u32| (start <= x <= end) implies (x >> 9) < major_end + 1 by {
+                assert((x >> 9) <= (end >> 9)) by(bit_vector) requires x <= end;
+            }
+        }
+//@end
 }
 
+// within the page of `major`, the members of start..=end are the bit positions page_start..=page_end (mod 512)
+proof fn lemma_range_bits(start: u32, end: u32, major: u32, x: u32)
+    requires start <= end, (start >> 9) <= major <= (end >> 9), (x >> 9) == major
+    ensures ({
+        let lo = (major << 9) as u32;
+        let hi = (lo + 511) as u32;
+        let ps = if start >= lo { start } else { lo };
+        let pe = if end <= hi { end } else { hi };
+        (start <= x <= end) == ((ps & 511) <= (x & 511) <= (pe & 511))
+    })
+{
+    assert(major < 0x80_0000u32) by(bit_vector) requires major <= end >> 9;
+    let lo = (major << 9) as u32;
+    assert(lo <= 0xffff_fe00u32) by(bit_vector) requires lo == major << 9, major < 0x80_0000u32;
+    let hi = (lo + 511) as u32;
+    let ps = if start >= lo { start } else { lo };
+    let pe = if end <= hi { end } else { hi };
+    assert((start <= x <= end) == ((ps & 511) <= (x & 511) <= (pe & 511))) by(bit_vector)
+        requires start <= end, (start >> 9) <= major, major <= (end >> 9), (x >> 9) == major, lo == major << 9, hi == lo + 511, lo <= 0xffff_fe00u32,
+            ps == (if start >= lo { start } else { lo }), pe == (if end <= hi { end } else { hi });
+}
 proof fn lemma_split(x: u32, y: u32)
     ensures (x == y) == ((x >> 9) == (y >> 9) && (x & 511) == (y & 511))
 { assert((x == y) == ((x >> 9) == (y >> 9) && (x & 511) == (y & 511))) by(bit_vector); }
